@@ -37,6 +37,7 @@ class Prop(object):
             'subpacket 1/2/5-octet encodings; every partial-length chunking from the chunk alphabet; every MPI bit '
             'length in 4 patterns; timestamp boundaries in 4 fields x time zones; all 256 S2K counts; every body-length '
             'transition across a width boundary after a parse. One state = one (codec, value, encoding); distinct by construction.')
+    CASE_TIMEOUT = 900
     ASSUMPTIONS = ['refpgp.wire implements RFC 4880 sections 3.2, 3.5, 3.7.1.3, 4.2 and 5.2.3.1 (cross-checked by the reference self-test)',
                    'values outside the enumerated ranges (lengths between 70001 and 2^32 other than the boundary set) are not explored']
 
